@@ -358,12 +358,36 @@ class Ctx:
         self.log("go  %-28s rc=%s reports=%s %.1fs" % (label, res.rc, sorted(res.reports), res.wall))
         if res.timed_out:
             raise Broken("go test %s timed out" % label)
+        if res.rc != 0 and "panic:" in res.out:
+            culprit = self._panic_culprit(res.out)
+            if culprit:
+                # the code under test crashed while being driven through a behaviour of the spec
+                snippet = res.out[res.out.index("panic:"):][:3000]
+                self.violation("panic:" + culprit.split("/")[-1].split(":")[0],
+                               "keep-core code panicked while the harness %s replayed a specification behaviour (%s)" % (label, culprit),
+                               {"output": snippet})
+                return res
         if res.rc != 0:
             tail = "\n".join(res.out.splitlines()[-60:])
             raise Broken("go test %s failed (build error, panic or harness failure), rc=%s\n%s" % (label, res.rc, tail))
         if not res.reports:
             raise Broken("go test %s produced no report (test skipped or not found?)\n%s" % (label, res.out[-2000:]))
         return res
+
+    def _panic_culprit(self, out):
+        """First stack frame after 'panic:' that is neither Go runtime/testing nor
+        harness code; returns file:line if that frame is keep-core code."""
+        seg = out[out.index("panic:"):]
+        for m in re.finditer(r"^\s+(/\S+\.go):(\d+)", seg, re.M):
+            f = m.group(1)
+            if "/usr/lib/go" in f or "/go/src/" in f or "/usr/local/go/" in f or "/runtime/" in f or "/testing/" in f or "/opt/veriftools" in f:
+                continue
+            if "zz_verif_" in f or "/verif/harness/" in f or "verifkit" in f:
+                return None
+            if f.startswith(REPO + "/"):
+                return "%s:%s" % (f[len(REPO) + 1:], m.group(2))
+            return None
+        return None
 
     def absorb(self, gores, require_evals=1):
         """Fold harness reports into the evidence and turn divergences into violations."""
